@@ -134,4 +134,74 @@ theorem C29_attach_race (cap : Nat) (hc : 0 < cap) (pre : List String) (t : Stri
 example : alookup (((writes (LW.new 2) ["a", "b", "c"]).register 1).write "n").handlers 1 = some ["b", "c", "n"]
     ∧ alookup (((writes (LW.new 2) ["a", "b", "c"]).write "n").register 1).handlers 1 = some ["c", "n"] := by decide
 
+/-! ### Any number of monitors, any history of writes, attaches and detaches
+
+The ring-buffer writer refines the obvious specification: the specification remembers the whole log history
+and, per attached monitor, the lines it has received. -/
+
+inductive LOp where
+  | write (l : String)
+  | register (h : Nat)
+  | deregister (h : Nat)
+  deriving DecidableEq, Repr
+
+def LW.apply (w : LW) : LOp → LW
+  | .write l => w.write l
+  | .register h => w.register h
+  | .deregister h => w.deregister h
+
+structure MonSpec where
+  hist : List String := []
+  mons : List (Nat × List String) := []
+  deriving DecidableEq, Repr
+
+/-- The specification: an attach hands over the last `cap` lines of the whole history (attaching twice is
+a no-op), every later line is appended to every attached monitor, a detach forgets the monitor. -/
+def MonSpec.apply (cap : Nat) (s : MonSpec) : LOp → MonSpec
+  | .write l => { hist := s.hist ++ [l], mons := s.mons.map fun p => (p.1, p.2 ++ [l]) }
+  | .register h => if (alookup s.mons h).isSome then s else
+      { s with mons := s.mons ++ [(h, s.hist.drop (s.hist.length - cap))] }
+  | .deregister h => { s with mons := aerase s.mons h }
+
+theorem monitors_step (cap : Nat) (hc : 0 < cap) (w : LW) (s : MonSpec) (hi : RingInv cap w s.hist)
+    (hh : w.handlers = s.mons) (op : LOp) :
+    RingInv cap (LW.apply w op) (s.apply cap op).hist ∧ (LW.apply w op).handlers = (s.apply cap op).mons := by
+  cases op with
+  | write l =>
+    refine ⟨ringInv_write hc hi l, ?_⟩
+    have hne : w.logs.length ≠ 0 := by rw [hi.1]; omega
+    simp [LW.apply, MonSpec.apply, LW.write, hne, hh]
+  | register h =>
+    have hb := backlog_eq hc hi
+    unfold backlog at hb
+    simp only [LW.apply, MonSpec.apply, LW.register, hh]
+    by_cases hp : (alookup s.mons h).isSome
+    · simp only [hp, ↓reduceIte]; exact ⟨hi, hh⟩
+    · simp only [hp, Bool.false_eq_true, ↓reduceIte]
+      refine ⟨?_, by rw [hb]⟩
+      exact hi
+  | deregister h =>
+    simp only [LW.apply, MonSpec.apply, LW.deregister, hh]
+    exact ⟨hi, trivial⟩
+
+/-- **Refinement, every history.** For every ring size, every sequence of log writes, monitor attaches and
+detaches (any number of monitors, attached at any time, re-attached after a detach): each monitor has received
+exactly what the specification says — the last `min cap |history|` lines at its attach, oldest first, then every
+later line exactly once in order, and nothing after its detach. -/
+theorem C29_monitors_refine (cap : Nat) (hc : 0 < cap) (ops : List LOp) :
+    (ops.foldl LW.apply (LW.new cap)).handlers = (ops.foldl (MonSpec.apply cap) {}).mons := by
+  suffices ∀ (w : LW) (s : MonSpec), RingInv cap w s.hist → w.handlers = s.mons →
+      (ops.foldl LW.apply w).handlers = (ops.foldl (MonSpec.apply cap) s).mons from
+    this _ _ (RingInv.new cap hc) rfl
+  induction ops with
+  | nil => intro w s _ hh; simpa using hh
+  | cons op ops ih =>
+    intro w s hi hh
+    obtain ⟨hi', hh'⟩ := monitors_step cap hc w s hi hh op
+    exact ih _ _ hi' hh'
+
+-- two monitors, ring of 2: monitor 1 attaches after "a","b","c", monitor 2 after "d"; monitor 1 detaches, "e" is logged
+example : (([.write "a", .write "b", .write "c", .register 1, .write "d", .register 2, .deregister 1, .write "e"] : List LOp).foldl
+    LW.apply (LW.new 2)).handlers = [(2, ["c", "d", "e"])] := by decide
+
 end SerfProofs.C29
